@@ -2,7 +2,8 @@
 """Syntactic mutation sweep over one source file of pitt-rnel/pyrtma, judged by whole checks (`./check Cnn`).
 
     tools/mutate_check.py <worktree> <relative file> --checks C09[,C10...] [--only f1,f2] [--skip f1,f2]
-                          [--limit N] [--from N] [--lines l1,l2] [--nums n1,n2] [--out file.jsonl] [--timeout S] [--list]
+                          [--limit N] [--from N] [--lines l1,l2] [--every K [--offset O]] [--out file.jsonl] [--timeout S]
+                          [--list | --dry]
 
 The worktree is a scratch `git worktree` of /repo (never /repo itself).  For every mutant (comparison / boolean operator
 swaps, 0<->1 constants, deleted simple statements, negated conditions, swapped `continue`/`break`, +/- swaps) of the file
@@ -11,7 +12,7 @@ per mutant and check: exit code (0 = not seen, 1 = VIOLATION, 2 = machinery fail
 whether the VIOLATION came with a failing input, and the failing clause.  Survivors (every check exit 0) are either
 equivalent mutants or behaviour no check looks at: they are listed with the mutated text for triage.
 This is a measuring instrument for the correspondence tie, not a check: nothing in MANIFEST.json runs it."""
-import ast, json, os, subprocess, sys, hashlib, tempfile, shutil, time
+import ast, json, os, signal, subprocess, sys, hashlib, tempfile, shutil, time
 
 
 def arg(name, default=None):
@@ -25,7 +26,6 @@ skip = set(arg("--skip").split(",")) if arg("--skip") else set()
 limit = int(arg("--limit", 10 ** 9))
 first = int(arg("--from", 1))        # resume: skip the mutants numbered below this (numbering unchanged)
 lines_only = set(int(x) for x in arg("--lines").split(",")) if arg("--lines") else None
-nums_only = set(int(x) for x in arg("--nums").split(",")) if arg("--nums") else None   # re-run single mutants by their number in the full enumeration (--list)
 timeout = int(arg("--timeout", 1500))
 out = open(arg("--out"), "a") if arg("--out") else sys.stdout
 assert os.path.realpath(wt) != "/repo"
@@ -35,6 +35,10 @@ tree = ast.parse(src)
 # scratch (evidence / replays of the mutant runs) next to the output file, not in /tmp's root where cleaners roam
 scratch = tempfile.mkdtemp(prefix="mutchk_", dir=os.path.dirname(os.path.abspath(arg("--out"))) if arg("--out") else None)
 HERE = os.path.dirname(os.path.dirname(os.path.abspath(__file__)))  # the clone this tool lives in (never a fixed /verif)
+VERIF = os.environ.get("VERIF_ROOT") or HERE
+start_from = first
+every, offset = int(arg("--every", 1)), int(arg("--offset", 0))      # systematic sample: mutants with n % every == offset
+dry = "--dry" in sys.argv or "--list" in sys.argv
 
 CMP = {ast.Lt: ast.LtE, ast.LtE: ast.Lt, ast.Gt: ast.GtE, ast.GtE: ast.Gt, ast.Eq: ast.NotEq, ast.NotEq: ast.Eq,
        ast.In: ast.NotIn, ast.NotIn: ast.In, ast.Is: ast.IsNot, ast.IsNot: ast.Is}
@@ -129,11 +133,22 @@ def run_check(prop):
     os.makedirs(scratch, exist_ok=True)
     env = dict(os.environ, PYRTMA_REPO=wt, VERIF_EVIDENCE_DIR=ev, VERIF_REPLAYS_DIR=rp, VERIF_NOCACHE="1")
     t0 = time.time()
+    # own session: on a time-out the whole process group goes (a mutant that loops for ever inside a worker pool would
+    # otherwise leave the workers spinning)
+    p = subprocess.Popen([os.path.join(VERIF, "check"), prop], stdout=subprocess.PIPE, stderr=subprocess.STDOUT, text=True,
+                         env=env, cwd=VERIF, start_new_session=True)
     try:
-        p = subprocess.run([os.path.join(HERE, "check"), prop], capture_output=True, text=True, env=env, timeout=timeout, cwd=HERE)
-        rc, text = p.returncode, p.stdout + p.stderr
+        text, _ = p.communicate(timeout=timeout)
+        rc = p.returncode
     except subprocess.TimeoutExpired:
         rc, text = 2, "timeout"
+    finally:
+        try:
+            os.killpg(p.pid, signal.SIGKILL)
+        except (ProcessLookupError, PermissionError):
+            pass
+        if rc == 2 and text == "timeout":
+            p.communicate()
     r = {"rc": rc, "s": round(time.time() - t0)}
     vl = [l for l in text.splitlines() if l.startswith("VIOLATION")]
     if rc == 1 and not vl:
@@ -177,9 +192,9 @@ try:
         except SyntaxError:
             continue
         n += 1
-        if n < first or (nums_only is not None and n not in nums_only):
+        if n < first or n % every != offset % every:
             continue
-        if "--list" in sys.argv:        # dry run: what would be applied (no check runs)
+        if dry:        # dry run: what would be applied (no check runs)
             print(json.dumps({"n": n, "kind": kind, "func": f, "line": getattr(node, "lineno", 0), "before": before,
                               "after": after}), file=out, flush=True)
             continue
